@@ -260,7 +260,7 @@ def eval_e2e(case, rng):
         what = f"quic-{s.suite:04X}"
     else:
         mx = suites.matrix()
-        v, code, name, p = mx[rng.randrange(len(mx))]
+        v, code, name, p = suites.pick(rng)
         spec, _ = tlssynth.random_spec(rng, v, code, nmax=10, big=False)
         conn = tlssynth.build_conn(spec, rng)
         ep = tcpcap.random_ep(rng, v6=v6)
